@@ -20,6 +20,7 @@ import (
 	"github.com/emirpasic/gods/v2/sets/linkedhashset"
 	"github.com/emirpasic/gods/v2/stacks/arraystack"
 	"github.com/emirpasic/gods/v2/stacks/linkedliststack"
+	"github.com/emirpasic/gods/v2/trees/avltree"
 	"github.com/emirpasic/gods/v2/trees/btree"
 	"github.com/emirpasic/gods/v2/trees/redblacktree"
 )
@@ -252,5 +253,82 @@ func runC11Nested(c *core.Ctx, sel int) {
 		}
 		c.Count("obs:nested-tojson", 1)
 	}
+	c.Nontrivial()
+}
+
+// runC11NullInside: map values that NEST and contain null somewhere inside
+// (slices of pointers with nil entries, maps with nil values). A loader that
+// walks the document token by token must not mistake such a null for anything
+// else (json.Decoder.Token returns a nil token for null).
+func runC11NullInside(c *core.Ctx, sel int) {
+	r := c.R
+	kinds := []string{"HashMap", "LinkedHashMap", "TreeMap", "RedBlackTree", "AVLTree", "BTree"}
+	kind := kinds[sel%len(kinds)]
+	natural := func(a, b string) int { return strCmps[0].F(a, b) }
+	type V = []*int
+	type api interface {
+		Put(string, V)
+		Size() int
+		Keys() []string
+		containers.JSONSerializer
+		containers.JSONDeserializer
+	}
+	mk := func() api {
+		switch kind {
+		case "HashMap":
+			return hashmap.New[string, V]()
+		case "LinkedHashMap":
+			return linkedhashmap.New[string, V]()
+		case "TreeMap":
+			return treemap.NewWith[string, V](natural)
+		case "RedBlackTree":
+			return redblacktree.NewWith[string, V](natural)
+		case "AVLTree":
+			return avltree.NewWith[string, V](natural)
+		default:
+			return btree.NewWith[string, V](3, natural)
+		}
+	}
+	m := mk()
+	keys := []string{"a", "b", "c", "d", "k1", "zz", "A"}
+	for i, n := 0, r.Range(1, len(keys)); i < n; i++ {
+		var v V
+		for j, l := 0, r.Range(0, 4); j < l; j++ {
+			if r.Intn(3) == 0 {
+				v = append(v, nil)
+			} else {
+				x := r.Intn(50)
+				v = append(v, &x)
+			}
+		}
+		if r.Intn(5) == 0 {
+			v = nil // a null at the top of the value too
+		}
+		m.Put(keys[i], v)
+	}
+	c.Begin(kind, "ToJSON", "values are slices of pointers, some nil")
+	j1, err := m.ToJSON()
+	if err != nil {
+		c.Fail("tojson", "error", "%s.ToJSON() returned %v", kind, err)
+	}
+	f := mk()
+	c.Begin(kind, "FromJSON", string(j1))
+	if err := f.FromJSON(j1); err != nil {
+		c.Fail("reload", "own-output-rejected", "%s.FromJSON rejects the container's own ToJSON output %s: %v", kind, j1, err)
+	}
+	j2, err := f.ToJSON()
+	if err != nil {
+		c.Fail("tojson", "error", "%s.ToJSON() of the reloaded container returned %v", kind, err)
+	}
+	var a1, a2 any
+	json.Unmarshal(j1, &a1)
+	json.Unmarshal(j2, &a2)
+	if f.Size() != m.Size() || !reflect.DeepEqual(a1, a2) {
+		c.Fail("reload", "not-equivalent", "%s with nulls inside its values: %s reloads as %s (Size %d vs %d)", kind, j1, j2, m.Size(), f.Size())
+	}
+	if kind != "HashMap" && !eqSlices(m.Keys(), f.Keys()) {
+		c.Fail("reload", "order", "%s with nulls inside its values: keys %v reload as %v", kind, m.Keys(), f.Keys())
+	}
+	c.Count("obs:nulls-inside-values", 1)
 	c.Nontrivial()
 }
